@@ -350,14 +350,14 @@ func positionToOffset(lines []string, pos Position) int {
 // This method is safe for concurrent use as it operates on document fields
 // without modifying state.
 func (doc *Document) GetWordAtPosition(pos Position) string {
-	if pos.Line >= len(doc.Lines) {
+	if pos.Line < 0 || pos.Line >= len(doc.Lines) {
 		return ""
 	}
 
 	line := doc.Lines[pos.Line]
 	runes := []rune(line)
 
-	if pos.Character >= len(runes) {
+	if pos.Character < 0 || pos.Character >= len(runes) {
 		return ""
 	}
 
